@@ -60,6 +60,9 @@ CHECKS = {
  "C09": ("runtime monitor in resource-limited child processes: per-call thread CPU time (getrusage RUSAGE_THREAD), allocated-bytes delta (runtime/metrics), 1 ms live-heap sampler, RLIMIT_AS kill switch and a 90 s watchdog, over the C08 generators; declared image size parsed by an independent header reader",
          "Held on every executed in-domain call (input <= 64 KiB declaring S <= 2^22 samples): CPU time <= 10 s and allocation <= 512 MiB + 64*S; three-valued verdict (wall > 10 s with CPU below, or TotalAlloc above budget without a live-heap sample above it, is inconclusive and counted).",
          "Thread CPU time is a lower bound of the call's wall time; TotalAlloc delta is an upper bound of its peak.", "3/C09"),
+ "C17": ("runtime monitor in child processes: every Encode entry point called with the cross product of argument value sets around each documented limit and buffer-length classes; recover()/exit-status oracle, required-error oracle for documented-invalid arguments, and decode-back geometry oracle for every returned stream",
+         "Held on every executed argument tuple (about 110 000 per quick run, the full product in the thorough tier): no panic, an error for every documented-invalid tuple, and every returned stream decodes to the requested geometry; codec-level calls with nil / default / garbage / foreign parameter objects and zero / empty / short / nil inputs.",
+         "The list of documented-invalid arguments is read from each Encode's validation code and comments; merely unwise values only get the no-panic and decode-back oracles.", "3/C17"),
 }
 
 NOT_YET = {
